@@ -38,7 +38,13 @@ def _shuffle(tier):
                             'random_choice on sizes up to 3001 with 200 (1500) seeds')
 
 
-EXTRA = {'C17': [('bounded-bucket-iter', _bucket)], 'C12': [('bounded-shuffles', _shuffle)],
+def _effects(tier):
+    from harness import effects_standin
+    c, f = effects_standin.search(tier)
+    return c, f, '19 lazy pipelines over a 12-example source, every prefix length and every index'
+
+
+EXTRA = {'C08': [('bounded-demand', _effects)], 'C17': [('bounded-bucket-iter', _bucket)], 'C12': [('bounded-shuffles', _shuffle)],
          'C13': [('bounded-seed-determinism', _shuffle)]}
 
 
